@@ -33,6 +33,18 @@ Definition is_set (n : node) : bool := match n with NSet _ _ => true | _ => fals
 Definition leaf_val (n : node) : option pyval :=
   match n with NLeaf _ v => Some v | _ => None end.
 
+(* ruamel's ScalarBoolean (an anchored YAML boolean such as `&x true`) is an
+   int subclass: Python sees the integer 1/0 (str() = "1"), but code may test
+   isinstance(x, ScalarBoolean).  Convention: such a leaf is encoded as
+   NLeaf i (PInt 1|0) whose [tag i] is the YAML boolean tag below (the encoder
+   harness/docenc.py sets it; a ScalarBoolean carries no other tag). *)
+Definition sbool_tag : string := "tag:yaml.org,2002:bool"%string.
+Definition is_sbool (n : node) : bool :=
+  match n with
+  | NLeaf i (PInt _) => match tag i with Some t => String.eqb t sbool_tag | None => false end
+  | _ => false
+  end.
+
 (* `a is b` *)
 Definition same_obj (a b : node) : bool := N.eqb (node_oid a) (node_oid b).
 
